@@ -155,4 +155,89 @@ theorem inv_step {st : St} {g : GSt} (h : Inv st g) : ∀ (op : Op) {g' : GSt} {
         rw [if_neg hc, if_neg hc']
         exact hs'
 
+/-! ### histories -/
+
+/-- run a list of API calls on the concrete tracker, collecting each call's emitted updates -/
+def run (st : St) : List Op → Option (St × List (List Upd))
+  | [] => some (st, [])
+  | op :: ops =>
+    match step st op with
+    | none => none
+    | some (st', out) =>
+      match run st' ops with
+      | none => none
+      | some (st'', outs) => some (st'', out :: outs)
+
+/-- the same history in the ghost world; `none` as soon as one call is not ghost-valid -/
+def grun (g : GSt) : List Op → Option (GSt × List (List Upd))
+  | [] => some (g, [])
+  | op :: ops =>
+    match gstep g op with
+    | none => none
+    | some (g', out) =>
+      match grun g' ops with
+      | none => none
+      | some (g'', outs) => some (g'', out :: outs)
+
+theorem inv_run : ∀ (ops : List Op) {st : St} {g : GSt}, Inv st g →
+    ∀ {g' : GSt} {outs : List (List Upd)}, grun g ops = some (g', outs) →
+    ∃ st', run st ops = some (st', outs) ∧ Inv st' g'
+  | [], st, g, h, g', outs, hg => by
+    simp only [grun, Option.some.injEq, Prod.mk.injEq] at hg
+    obtain ⟨rfl, rfl⟩ := hg
+    exact ⟨st, rfl, h⟩
+  | op :: ops, st, g, h, g', outs, hg => by
+    simp only [grun] at hg
+    cases hs : gstep g op with
+    | none => rw [hs] at hg; cases hg
+    | some r =>
+      obtain ⟨g1, out⟩ := r
+      rw [hs] at hg
+      simp only at hg
+      cases hr : grun g1 ops with
+      | none => rw [hr] at hg; cases hg
+      | some r2 =>
+        obtain ⟨g2, outs2⟩ := r2
+        rw [hr] at hg
+        simp only [Option.some.injEq, Prod.mk.injEq] at hg
+        obtain ⟨rfl, rfl⟩ := hg
+        obtain ⟨st1, hst1, hinv1⟩ := inv_step h op hs
+        obtain ⟨st2, hst2, hinv2⟩ := inv_run ops hinv1 hr
+        exact ⟨st2, by simp only [run, hst1, hst2], hinv2⟩
+
+/-! ### concrete states used as non-vacuity witnesses -/
+
+def demoOps : List Op := [.newSession 1, .numMessages 5, .expunge 2]
+def demoSt : St := ⟨4, [⟨1, [.exists_ 2 5, .expunge 2]⟩]⟩
+def demoG : GSt := ⟨[0, 2, 3, 4], 5, [⟨1, [0, 1], [.exists_ [2, 3, 4], .expunge 1]⟩]⟩
+
+theorem demo_grun : grun (ginit 2) demoOps = some (demoG, [[], [], []]) := rfl
+theorem demo_run : run (init 2) demoOps = some (demoSt, [[], [], []]) := rfl
+
+theorem demo_inv : Inv demoSt demoG := by
+  obtain ⟨st', h1, h2⟩ := inv_run demoOps (inv_init 2) demo_grun
+  rw [demo_run] at h1
+  simp only [Option.some.injEq, Prod.mk.injEq, and_true] at h1
+  exact h1 ▸ h2
+
+/-- a longer history: two sessions, a flag change made by session 2, two expunges, a poll that may
+    not report expunges -/
+def demo2Ops : List Op :=
+  [.newSession 1, .numMessages 5, .expunge 2, .newSession 2, .messageFlags 3 (some 2), .expunge 1,
+   .poll 1 false]
+def demo2St : St := ⟨3, [⟨1, [.expunge 2, .fetch 3, .expunge 1]⟩, ⟨2, [.expunge 1]⟩]⟩
+def demo2G : GSt :=
+  ⟨[2, 3, 4], 5, [⟨1, [0, 1, 2, 3, 4], [.expunge 1, .fetch 3, .expunge 0]⟩, ⟨2, [0, 2, 3, 4], [.expunge 0]⟩]⟩
+
+theorem demo2_grun :
+    grun (ginit 2) demo2Ops = some (demo2G, [[], [], [], [], [], [], [.exists_ 2 5]]) := rfl
+theorem demo2_run :
+    run (init 2) demo2Ops = some (demo2St, [[], [], [], [], [], [], [.exists_ 2 5]]) := rfl
+
+theorem demo2_inv : Inv demo2St demo2G := by
+  obtain ⟨st', h1, h2⟩ := inv_run demo2Ops (inv_init 2) demo2_grun
+  rw [demo2_run] at h1
+  simp only [Option.some.injEq, Prod.mk.injEq, and_true] at h1
+  exact h1 ▸ h2
+
 end GoImap.TrackerLemmas
